@@ -415,6 +415,8 @@ def check_property(prop, tier, seed):
             glue_used.append('%s at %s %s' % (g['id'], g.get('at', '?'), 'ok' if g['ok'] else 'CHANGED (%s)' % g['actual']))
             if not g['ok']:
                 undecided.append('glue entry %s changed (hash %s, pinned %s)' % (g['id'], g['actual'], g['sha']))
+                if uname not in undecided_units:
+                    undecided_units.append(uname)   # a probe on the real code may still decide
         trusted += ['[%s] %s' % (uname, t) for t in scan_trusted(unit)]
         for r, c in unit.rule_counts.items():
             rule_apps['%s:%s' % (uname, r)] = c
